@@ -327,7 +327,18 @@ def main(argv):
             return props.setup()
         if cmd == 'replay':
             build('dev')
-            r = subprocess.run([binpath('replay'), '--one', rest[0]], cwd=ROOT)
+            kind = None
+            try:
+                kind = json.load(open(rest[0])).get('kind')
+            except Exception:
+                pass
+            if kind == 'tworun':
+                r = subprocess.run([binpath('tworun'), '--one', rest[0]], cwd=ROOT)
+            elif kind in ('mismatch', 'predicate', None):
+                r = subprocess.run([binpath('replay'), '--one', rest[0]], cwd=ROOT)
+            else:
+                print(open(rest[0]).read()[:5000])
+                return 1
             return r.returncode
         if cmd in props.CHECKS:
             t0 = time.time()
